@@ -112,11 +112,15 @@ def run(ctx):
                     elif any(A.callee_name(k) == "toupper" for k in A.calls_in(A.kids(x)[1])):
                         # toupper(*src_backup) inside the case group t/f/n/i
                         produced |= {"T", "F", "N", "I"}
-    # numeric types chosen by scanf_fmtstr's try_fmt(..., 'x')
-    for k in A.calls_in(u.body(u.function("scanf_fmtstr")), "try_fmt"):
-        v = A.int_literal(A.kids(k)[5])
-        if v:
-            produced.add(chr(v))
+    # numeric types: the tag scanf_fmtstr (evaluated, rules/numspell.py) chooses for one spelling of each numeric kind
+    from ..rules import numspell as NS
+    for tok in ("42", "42i", "42h", "1.5", "1.5f", "1.5d", "0x1f", "1e3"):
+        try:
+            fmt_, typ_ = NS.chosen_format(u, u.function("scanf_fmtstr"), tok + " ")
+        except FD.Unknown as e:
+            raise AnalysisBroken("R10.2: scanf_fmtstr not evaluable on %r: %s" % (tok, e))
+        if fmt_ is not None and typ_:
+            produced.add(chr(typ_))
     # helpers that set the type themselves
     ut = ctx.ast("rtosc-time.c")
     for q in ("rtosc_arg_val_immediatelly", "rtosc_arg_val_from_params"):
